@@ -57,7 +57,10 @@ type Mod struct {
 }
 
 // New computes the summaries to a fixpoint.
-func New(p *load.Program, asmWrites map[string][]int) *Mod {
+func New(p *load.Program, asmWrites map[string][]int) *Mod { return NewRW(p, asmWrites, nil) }
+
+// NewRW is New with the read sets of the assembly routines as well.
+func NewRW(p *load.Program, asmWrites, asmReads map[string][]int) *Mod {
 	m := &Mod{P: p, Sum: map[*ssa.Function]*Summary{}, AsmWrites: asmWrites, roots: map[*ssa.Function]map[ssa.Value]*rootSet{}}
 	m.funcs = p.ModuleFuncs()
 	for _, fn := range m.funcs {
@@ -76,9 +79,15 @@ func New(p *load.Program, asmWrites map[string][]int) *Mod {
 					}
 				}
 			}
-			for i, prm := range fn.Params {
-				if pointerLike(prm.Type()) {
+			if r, ok := asmReads[load.FuncName(fn)]; ok {
+				for _, i := range r {
 					m.Sum[fn].Reads[i] = true
+				}
+			} else {
+				for i, prm := range fn.Params {
+					if pointerLike(prm.Type()) {
+						m.Sum[fn].Reads[i] = true
+					}
 				}
 			}
 		}
